@@ -5,6 +5,7 @@
 -/
 import Mathlib.Data.List.Perm.Basic
 import OHVerif.Lemmas.Segs
+import OHVerif.Props.C08
 import OHVerif.Lemmas.Kahn
 
 namespace OH.Graph
@@ -379,5 +380,230 @@ theorem converse_spec (B : Backend) (hB : B.Lawful) (r : IC FinFun) (hr : r.wf =
 example : (⟨⟨[2, 0, 3], 6⟩, ⟨[1, 3, 0, 1, 1], 4⟩⟩ : IC FinFun).wf = true ∧
     (⟨⟨[2, 0, 3], 6⟩, ⟨[1, 3, 0, 1, 1], 4⟩⟩ : IC FinFun).segs = [[1, 3], [], [0, 1, 1]] := by
   decide
+
+/-! ### hypergraphs: unpacking well-formedness, the plain edge list -/
+
+variable {O A : Type}
+
+theorem hg_wf_unpack (h : HG O A) (hwf : h.wf = true) :
+    h.s.wf = true ∧ h.t.wf = true ∧ h.s.len = h.x.length ∧ h.t.len = h.x.length ∧
+      h.s.values.target = h.w.length ∧ h.t.values.target = h.w.length := by
+  simp only [HG.wf, Bool.and_eq_true, beq_iff_eq] at hwf
+  obtain ⟨⟨⟨⟨⟨h1, h2⟩, h3⟩, h4⟩, h5⟩, h6⟩ := hwf
+  exact ⟨h1, h2, h3, h4, h5, h6⟩
+
+theorem toPlainEdges_length (h : HG O A) (hwf : h.wf = true) :
+    h.toPlainEdges.length = h.x.length := by
+  obtain ⟨_, _, h3, h4, _, _⟩ := hg_wf_unpack h hwf
+  simp [HG.toPlainEdges, IC.segs_length, h3, h4]
+
+/-- edge number `x` of the plain view: label, source list and target list of operation `x` -/
+theorem toPlainEdges_getElem? (h : HG O A) (hwf : h.wf = true) (x : Nat) (e : PEdge A) :
+    h.toPlainEdges[x]? = some e ↔
+      x < h.x.length ∧ h.x[x]? = some e.label ∧ e.src = h.s.segs.getD x [] ∧
+        e.tgt = h.t.segs.getD x [] := by
+  obtain ⟨_, _, h3, h4, _, _⟩ := hg_wf_unpack h hwf
+  have hs := IC.segs_length h.s
+  have ht := IC.segs_length h.t
+  by_cases hx : x < h.x.length
+  · have hxs : x < h.s.segs.length := by omega
+    have hxt : x < h.t.segs.length := by omega
+    have hx' : x < h.toPlainEdges.length := by rw [toPlainEdges_length h hwf]; exact hx
+    have hval : h.toPlainEdges[x] = ⟨h.x[x], h.s.segs[x], h.t.segs[x]⟩ := by
+      simp [HG.toPlainEdges]
+    rw [List.getElem?_eq_getElem hx', hval, List.getD_eq_getElem?_getD, List.getD_eq_getElem?_getD,
+      List.getElem?_eq_getElem hx, List.getElem?_eq_getElem hxs, List.getElem?_eq_getElem hxt]
+    obtain ⟨el, es, et⟩ := e
+    simp only [Option.some.injEq, PEdge.mk.injEq, Option.getD_some, hx, true_and]
+    constructor
+    · rintro ⟨rfl, rfl, rfl⟩; exact ⟨rfl, rfl, rfl⟩
+    · rintro ⟨rfl, rfl, rfl⟩; exact ⟨rfl, rfl, rfl⟩
+  · have hlen := toPlainEdges_length h hwf
+    rw [List.getElem?_eq_none (by omega)]
+    simp [hx]
+
+theorem mem_toPlainEdges (h : HG O A) (hwf : h.wf = true) (e : PEdge A) :
+    e ∈ h.toPlainEdges ↔ ∃ x, x < h.x.length ∧ h.x[x]? = some e.label ∧
+      e.src = h.s.segs.getD x [] ∧ e.tgt = h.t.segs.getD x [] := by
+  rw [List.mem_iff_getElem?]
+  exact exists_congr fun x => toPlainEdges_getElem? h hwf x e
+
+/-! ### segments, membership and `adjDep` -/
+
+theorem mem_segs_getD_lt (r : IC FinFun) (hr : r.wf = true) (i v : Nat)
+    (h : v ∈ r.segs.getD i []) : i < r.len ∧ v < r.values.target := by
+  obtain ⟨hv, _, hvw⟩ := wf_unpack' r hr
+  rw [List.getD_eq_getElem?_getD] at h
+  cases hs : r.segs[i]? with
+  | none => rw [hs] at h; simp at h
+  | some seg =>
+    rw [hs] at h
+    refine ⟨?_, ?_⟩
+    · rw [← IC.segs_length]
+      exact (List.getElem?_eq_some_iff.1 hs).1
+    · apply hvw
+      rw [← IC.segs_flatten r hv, List.mem_flatten]
+      exact ⟨seg, List.mem_of_getElem? hs, h⟩
+
+theorem adjDep_iff_mem (a : IC FinFun) (x y : Nat) : adjDep a x y ↔ y ∈ a.segs.getD x [] := by
+  unfold adjDep
+  rw [List.getD_eq_getElem?_getD]
+  cases a.segs[x]? with
+  | none => simp
+  | some seg => simp
+
+theorem wf_of_valid_segs (e : IC FinFun) (hv : e.valid = true)
+    (h : ∀ seg ∈ e.segs, ∀ y ∈ seg, y < e.values.target) : e.wf = true := by
+  have hv' := (IC.valid_iff e).1 hv
+  apply wf_pack e hv
+  · intro x hx
+    have := le_sum_of_mem' _ x hx
+    rw [hv'.1]
+    omega
+  · intro y hy
+    rw [← IC.segs_flatten e hv, List.mem_flatten] at hy
+    obtain ⟨seg, hseg, hy⟩ := hy
+    exact h seg hseg y hy
+
+theorem getD_map_flatMap (L : List (List Nat)) (g : Nat → List Nat) (x : Nat) :
+    (L.map (fun seg => seg.flatMap g)).getD x [] = (L.getD x []).flatMap g := by
+  rw [List.getD_eq_getElem?_getD, List.getD_eq_getElem?_getD, List.getElem?_map]
+  cases L[x]? <;> rfl
+
+/-! ### operation adjacency -/
+
+/-- **`operation_adjacency`** returns for every well-formed hypergraph an adjacency on the
+    operations (one segment per operation, entries are operation numbers) in which `y` is listed
+    under `x` once for every pair (target position of `x`, source position of `y`) carrying the
+    same node; in particular `y` is listed under `x` iff `y` depends on `x`. -/
+theorem operationAdjacency_spec (B : Backend) (hB : B.Lawful) (h : HG O A) (hwf : h.wf = true) :
+    ∃ a, operationAdjacency B h = .ok a ∧ AdjWF a ∧ a.len = h.x.length ∧
+      (∀ x y, (a.segs.getD x []).count y =
+        ((h.t.segs.getD x []).map (fun v => (h.s.segs.getD y []).count v)).sum) ∧
+      (∀ x y, adjDep a x y ↔ opDep (⟨h.w, h.toPlainEdges, [], []⟩ : PDiag O A) x y) := by
+  obtain ⟨hs, ht, hsl, htl, hst, htt⟩ := hg_wf_unpack h hwf
+  obtain ⟨htv, _, htw⟩ := wf_unpack' h.t ht
+  obtain ⟨c, hc, hcwf, hclen, hctgt, _, hccount, _⟩ := converse_spec B hB h.s hs
+  obtain ⟨hcv, _, hcw⟩ := wf_unpack' c hcwf
+  obtain ⟨a, ha, hav, hatgt, hasegs⟩ :=
+    C08.flatmap_spec h.t c htv htw hcv (by rw [hclen, htt, hst])
+  have halen : a.len = h.x.length := by
+    rw [← IC.segs_length, hasegs, List.length_map, IC.segs_length, htl]
+  have hmemc : ∀ v y, y ∈ c.segs.getD v [] ↔ v ∈ h.s.segs.getD y [] := by
+    intro v y
+    rw [← List.count_pos_iff, ← List.count_pos_iff, hccount]
+  have hcnt : ∀ x y, (a.segs.getD x []).count y =
+      ((h.t.segs.getD x []).map (fun v => (h.s.segs.getD y []).count v)).sum := by
+    intro x y
+    rw [hasegs, getD_map_flatMap, List.count_flatMap]
+    congr 1
+    apply List.map_congr_left
+    intro v _
+    exact hccount y v
+  have hdep : ∀ x y, adjDep a x y ↔
+      ∃ v, v ∈ h.t.segs.getD x [] ∧ v ∈ h.s.segs.getD y [] := by
+    intro x y
+    rw [adjDep_iff_mem, hasegs, getD_map_flatMap, List.mem_flatMap]
+    exact exists_congr fun v => and_congr_right fun _ => hmemc v y
+  refine ⟨a, ?_, ⟨?_, ?_⟩, halen, hcnt, ?_⟩
+  · unfold operationAdjacency
+    rw [hc, Res.ok_bind, ha]
+  · apply wf_of_valid_segs a hav
+    intro seg hseg y hy
+    rw [hasegs, List.mem_map] at hseg
+    obtain ⟨tseg, _, rfl⟩ := hseg
+    obtain ⟨v, _, hy⟩ := List.mem_flatMap.1 hy
+    rw [hatgt, hctgt]
+    exact (mem_segs_getD_lt h.s hs y v ((hmemc v y).1 hy)).1
+  · rw [hatgt, hctgt, halen, hsl]
+  · intro x y
+    rw [hdep]
+    unfold opDep
+    simp only [toPlainEdges_getElem? h hwf]
+    constructor
+    · rintro ⟨v, hvx, hvy⟩
+      have hx : x < h.x.length := by
+        rw [← htl]; exact (mem_segs_getD_lt h.t ht x v hvx).1
+      have hy : y < h.x.length := by
+        rw [← hsl]; exact (mem_segs_getD_lt h.s hs y v hvy).1
+      exact ⟨⟨h.x[x], _, _⟩, ⟨h.x[y], _, _⟩, v,
+        ⟨hx, List.getElem?_eq_getElem hx, rfl, rfl⟩, ⟨hy, List.getElem?_eq_getElem hy, rfl, rfl⟩,
+        hvx, hvy⟩
+    · rintro ⟨ex, ey, v, ⟨_, _, _, hxt⟩, ⟨_, _, hys, _⟩, hvx, hvy⟩
+      exact ⟨v, hxt ▸ hvx, hys ▸ hvy⟩
+
+/-! ### node adjacency -/
+
+theorem sum_replicate' (k x : Nat) : (List.replicate k x).sum = k * x := by
+  induction k with
+  | zero => simp
+  | succ k ih => rw [List.replicate_succ, List.sum_cons, ih, Nat.succ_mul, Nat.add_comm]
+
+theorem sum_map_flatMap_replicate (l : List Nat) (f φ : Nat → Nat) :
+    ((l.flatMap (fun i => List.replicate (f i) i)).map φ).sum =
+      (l.map (fun i => f i * φ i)).sum := by
+  induction l with
+  | nil => rfl
+  | cons i l ih =>
+    rw [List.flatMap_cons, List.map_append, List.sum_append, ih, List.map_replicate,
+      sum_replicate', List.map_cons, List.sum_cons]
+
+/-- **`node_adjacency`** returns for every well-formed hypergraph an adjacency on the nodes in
+    which `w` is listed under `v` once for every triple (operation, source position holding `v`,
+    target position holding `w`); in particular `w` is listed under `v` iff some operation leads
+    from `v` to `w`. -/
+theorem nodeAdjacency_spec (B : Backend) (hB : B.Lawful) (h : HG O A) (hwf : h.wf = true) :
+    ∃ a, nodeAdjacency B h = .ok a ∧ AdjWF a ∧ a.len = h.w.length ∧
+      (∀ v w, (a.segs.getD v []).count w =
+        ((List.range h.x.length).map (fun e =>
+          (h.s.segs.getD e []).count v * (h.t.segs.getD e []).count w)).sum) ∧
+      (∀ v w, adjDep a v w ↔ nodeStep (⟨h.w, h.toPlainEdges, [], []⟩ : PDiag O A) v w) := by
+  obtain ⟨hs, ht, hsl, htl, hst, htt⟩ := hg_wf_unpack h hwf
+  obtain ⟨htv, _, htw⟩ := wf_unpack' h.t ht
+  obtain ⟨c, hc, hcwf, hclen, hctgt, _, hccount, hcperm⟩ := converse_spec B hB h.s hs
+  obtain ⟨hcv, _, hcw⟩ := wf_unpack' c hcwf
+  obtain ⟨a, ha, hav, hatgt, hasegs⟩ :=
+    C08.flatmap_spec c h.t hcv hcw htv (by rw [hctgt, hsl, htl])
+  have halen : a.len = h.w.length := by
+    rw [← IC.segs_length, hasegs, List.length_map, IC.segs_length, hclen, hst]
+  have hmemc : ∀ v e, e ∈ c.segs.getD v [] ↔ v ∈ h.s.segs.getD e [] := by
+    intro v e
+    rw [← List.count_pos_iff, ← List.count_pos_iff, hccount]
+  have hdep : ∀ v w, adjDep a v w ↔
+      ∃ e, v ∈ h.s.segs.getD e [] ∧ w ∈ h.t.segs.getD e [] := by
+    intro v w
+    rw [adjDep_iff_mem, hasegs, getD_map_flatMap, List.mem_flatMap]
+    exact exists_congr fun e => and_congr_left fun _ => hmemc v e
+  refine ⟨a, ?_, ⟨?_, ?_⟩, halen, ?_, ?_⟩
+  · unfold nodeAdjacency nodeAdjacencyFromIncidence
+    rw [hc, Res.ok_bind, ha]
+  · apply wf_of_valid_segs a hav
+    intro seg hseg y hy
+    rw [hasegs, List.mem_map] at hseg
+    obtain ⟨cseg, _, rfl⟩ := hseg
+    obtain ⟨e, _, hy⟩ := List.mem_flatMap.1 hy
+    rw [hatgt]
+    exact (mem_segs_getD_lt h.t ht e y hy).2
+  · rw [hatgt, htt, halen]
+  · intro v w
+    rw [hasegs, getD_map_flatMap, List.count_flatMap, ((hcperm v).map _).sum_nat, hsl,
+      sum_map_flatMap_replicate]
+    rfl
+  · intro v w
+    rw [hdep]
+    unfold nodeStep
+    simp only [mem_toPlainEdges h hwf]
+    constructor
+    · rintro ⟨e, hve, hwe⟩
+      have he : e < h.x.length := by
+        rw [← hsl]; exact (mem_segs_getD_lt h.s hs e v hve).1
+      exact ⟨⟨h.x[e], _, _⟩, ⟨e, he, List.getElem?_eq_getElem he, rfl, rfl⟩, hve, hwe⟩
+    · rintro ⟨e, ⟨x, _, _, hes, het⟩, hve, hwe⟩
+      exact ⟨x, hes ▸ hve, het ▸ hwe⟩
+
+/-- a well-formed hypergraph with shared nodes, an operation without sources and one without
+    targets -/
+example : (⟨⟨⟨[2, 0, 1], 4⟩, ⟨[0, 1, 2], 4⟩⟩, ⟨⟨[1, 2, 0], 4⟩, ⟨[2, 0, 3], 4⟩⟩,
+    ["a", "b", "c", "d"], ["f", "g", "h"]⟩ : HG String String).wf = true := by decide
 
 end OH.Graph
